@@ -12,9 +12,14 @@ package main
 //           VALUE (cli_faultpeer.go: cliErrKinds — io.EOF and its wrappers, io.ErrUnexpectedEOF, io.ErrClosedPipe,
 //           os/net closed, deadlines, EPIPE/ECONNRESET, opaque values).
 //   over    a well-formed DATA reply that carries more bytes than the READ asked for (1, 9, one chunk, 200000 …).
+//   trail   replies LONGER than their content: a complete well-formed reply of every kind (the valid one and every
+//           substituted kind: STATUS x3, HANDLE, DATA, NAME x1/x2, ATTRS, EXTENDED_REPLY, VERSION, type 99) followed
+//           by trailing bytes INSIDE the same frame (the length word covers them): 1, 7, 8, 13, 800 bytes of zeros /
+//           0xff / PRNG, or a whole second reply (length word, type, id, body) / the body once more.
 
 import (
 	"fmt"
+	"math/rand"
 	"strings"
 
 	"verifharness/lib"
@@ -362,4 +367,121 @@ func c20Class(cs c20Case) string {
 		return c20ValueClass(cs)
 	}
 	return "c20/" + cs.Op
+}
+
+// ---------- trail: a complete reply followed by trailing bytes inside the frame ----------
+
+// c20TrailBytes builds the trailing bytes of a "trail" mutation; b is the complete frame they are appended to.
+func c20TrailBytes(m c20Mut, b []byte) []byte {
+	switch m.How {
+	case "reply": // a whole second reply, framing included
+		return append([]byte(nil), b...)
+	case "body": // the fields after the id once more
+		if len(b) > 9 {
+			return append([]byte(nil), b[9:]...)
+		}
+		return nil
+	}
+	t := make([]byte, max(m.N, 0))
+	switch m.How {
+	case "ff":
+		for i := range t {
+			t[i] = 0xff
+		}
+	case "prng":
+		rand.New(rand.NewSource(m.Seed ^ int64(m.N)*7919)).Read(t)
+	}
+	return t
+}
+
+func c20TrailBucket(m c20Mut) string {
+	switch {
+	case m.How == "reply":
+		return "a-whole-second-reply"
+	case m.How == "body":
+		return "the-body-again"
+	case m.N < 8:
+		return fmt.Sprint(m.N)
+	case m.N == 8:
+		return "8(one-more-word)"
+	case m.N < 100:
+		return "9..99"
+	case m.N <= 1000:
+		return "100..1000"
+	}
+	return ">1000"
+}
+
+var c20TrailN = []int{1, 7, 8, 13, 800}
+var c20TrailNThorough = []int{2, 3, 4, 5, 9, 12, 16, 24, 92, 255, 256, 4096, 32768, 200000}
+var c20TrailFill = []string{"ff", "zero", "prng"}
+
+// c20GenTrail: every reply of every (operation, variant) pair, and every substituted reply kind, complete and
+// followed by trailing bytes that the frame length covers.
+func c20GenTrail(c *lib.Ctx, pairs []c20Pair, dry map[string]c20Res) []c20Case {
+	var out []c20Case
+	for pi, p := range pairs {
+		if p.valueOnly {
+			continue
+		}
+		d, ok := dry[cliOpKey(p.op.Name, p.variant)]
+		if !ok {
+			continue
+		}
+		nrep := c20Nrep(p.op.Name, d)
+		for j := 0; j < nrep; j++ {
+			bases := append([]string{"valid"}, c20Bases...)
+			if p.level == 0 {
+				// light: the valid reply and three of the substituted kinds, rotating
+				bases = []string{"valid"}
+				for k := 0; k < 3; k++ {
+					bases = append(bases, c20Bases[(pi+j+4*k+1)%len(c20Bases)])
+				}
+			}
+			for bi, base := range bases {
+				add := func(n int, how string) {
+					out = append(out, c20Case{Op: p.op.Name, Opt: p.variant, Idx: j, Mut: c20Mut{Base: base, Kind: "trail", N: n, How: how, Seed: int64(1 + pi + 31*j + 977*bi)}})
+				}
+				rot := pi + j + bi
+				switch {
+				case p.level == 3:
+					for _, n := range c20TrailN {
+						for _, f := range c20TrailFill {
+							add(n, f)
+						}
+					}
+					for k, n := range c20TrailNThorough {
+						add(n, c20TrailFill[(rot+k)%len(c20TrailFill)])
+					}
+					add(0, "reply")
+					add(0, "body")
+				case p.level == 2 || base == "valid":
+					for k, n := range c20TrailN {
+						add(n, c20TrailFill[(rot+k)%len(c20TrailFill)])
+					}
+					add(0, "reply")
+					if base == "valid" {
+						add(0, "body")
+						add(8, c20TrailFill[(rot+1)%len(c20TrailFill)]) // one more word, a second content
+					}
+				default:
+					// light, substituted kind: one more word, one rotating size, a second reply
+					add(8, c20TrailFill[rot%len(c20TrailFill)])
+					add(c20TrailN[rot%len(c20TrailN)], c20TrailFill[(rot+1)%len(c20TrailFill)])
+					add(0, "reply")
+				}
+			}
+		}
+	}
+	// distinct only (the rotation can name the same mutation twice)
+	seen := map[string]bool{}
+	uniq := out[:0]
+	for _, cs := range out {
+		k := fmt.Sprintf("%s|%s|%d|%s", cs.Op, cs.Opt, cs.Idx, cs.Mut)
+		if !seen[k] {
+			seen[k] = true
+			uniq = append(uniq, cs)
+		}
+	}
+	return uniq
 }
